@@ -608,6 +608,10 @@ func (g *Gen) intrinsic(name string, c *ssa.CallCommon, args []Val, rt types.Typ
 		return sv(rt, g.define("bitslen", "(_ BitVec 64)", t)), true
 	}
 	if name == "(*sync.Pool).Get" || name == "(*sync.Pool).Put" {
+		if g.fc != nil && g.fc.DataflowOnly != "" {
+			// dataflow-only units do not reason about pooled buffers: Get returns anything, Put has no effect
+			return Val{}, false
+		}
 		return g.poolOp(name, args, rt, pos), true
 	}
 	return Val{}, false
